@@ -527,15 +527,23 @@ func (g *schemaGenerator) generateType(t *schemas.Type, scope nameScope) (codege
 			return nil, fmt.Errorf("invalid type %q: %w", typeName, err)
 		}
 
-		if ncg, ok := cg.(codegen.NamedType); ok {
-			for _, imprt := range ncg.Package.Imports {
-				g.output.file.Package.AddImport(imprt.QualifiedName, "")
-			}
-
-			return ncg, nil
-		}
+		g.addNamedTypeImports(cg)
 
 		return cg, nil
+	}
+}
+
+// addNamedTypeImports registers the imports of a library type (time.Time, netip.Addr, ...)
+// chosen for a primitive, also when a nullable type wrapped it in a pointer.
+func (g *schemaGenerator) addNamedTypeImports(t codegen.Type) {
+	if p, ok := t.(*codegen.PointerType); ok {
+		t = p.Type
+	}
+
+	if nt, ok := t.(codegen.NamedType); ok && nt.Package != nil {
+		for _, imprt := range nt.Package.Imports {
+			g.output.file.Package.AddImport(imprt.QualifiedName, "")
+		}
 	}
 }
 
@@ -969,13 +977,7 @@ func (g *schemaGenerator) generateTypeInline(t *schemas.Type, scope nameScope) (
 				return nil, fmt.Errorf("invalid type %q: %w", t.Type[typeIndex], err)
 			}
 
-			if ncg, ok := cg.(codegen.NamedType); ok {
-				for _, imprt := range ncg.Package.Imports {
-					g.output.file.Package.AddImport(imprt.QualifiedName, "")
-				}
-
-				return ncg, nil
-			}
+			g.addNamedTypeImports(cg)
 
 			return cg, nil
 		}
